@@ -28,7 +28,8 @@ func (e *Executor) Status(ctx context.Context, calls ...*Call) error {
 		isUpToDate, err := fingerprint.IsTaskUpToDate(ctx, t,
 			fingerprint.WithMethod(method),
 			fingerprint.WithTempDir(e.TempDir.Fingerprint),
-			fingerprint.WithDry(e.Dry),
+			// A status query never records anything
+			fingerprint.WithDry(true),
 			fingerprint.WithLogger(e.Logger),
 		)
 		if err != nil {
